@@ -85,17 +85,21 @@ func emitNodeAssemblerMethodAssignNode_listoid(w io.Writer, adjCfg *AdjunctCfg, 
 			if v.Kind() != datamodel.Kind_List {
 				return datamodel.ErrWrongKind{TypeName: "{{ .PkgName }}.{{ .Type.Name }}{{ if .IsRepr }}.Repr{{end}}", MethodName: "AssignNode", AppropriateKind: datamodel.KindSet_JustList, ActualKind: v.Kind()}
 			}
+			la, err := na.BeginList(v.Length())
+			if err != nil {
+				return err
+			}
 			itr := v.ListIterator()
 			for !itr.Done() {
 				_, v, err := itr.Next()
 				if err != nil {
 					return err
 				}
-				if err := na.AssembleValue().AssignNode(v); err != nil {
+				if err := la.AssembleValue().AssignNode(v); err != nil {
 					return err
 				}
 			}
-			return na.Finish()
+			return la.Finish()
 		}
 	`, w, adjCfg, data)
 }
